@@ -401,8 +401,8 @@ int main(int argc, char **argv) {
   const std::vector< int > extended = {0, 1, 2, 3, 4, 5, 6, 7}; // 4-cell grid: plus Mach ~1.1-1.6 towards +-x
   // thorough tier: 2x2x2 without the -x state (mirror images of +x are on the other grids), 4x2x1 all six
   const std::vector< int > big[2] = {{0, 1, 2, 3, 5}, full};
-  // quick tier: rest / supersonic+x / near-vacuum on 2x2x2, plus dense-cold on 4x2x1
-  const std::vector< int > sub[2] = {{0, 3, 5}, {0, 1, 3, 5}};
+  // quick tier: rest / supersonic+x / near-vacuum on 2x2x2, dense-cold / supersonic+x / near-vacuum on 4x2x1
+  const std::vector< int > sub[2] = {{0, 3, 5}, {1, 3, 5}};
   std::vector< std::string > cells_of_grid[3];
   for (int g = 0; g < 3; ++g) {
     const bool small = GRIDS[g][0] * GRIDS[g][1] * GRIDS[g][2] <= 4;
